@@ -589,7 +589,9 @@ func checkC19(cs *c19Case, o *pt.Obs) error {
 	if err != nil {
 		return pt.Inconclusivef("sandbox: %v", err)
 	}
-	opts := sut.Options{DataDir: sb.DataDir, Cwd: sb.Cwd, Features: []string{"stores"}}
+	// generous command timeout: a flush after hundreds of distinct (harmless) index names writes
+	// hundreds of segments and took > 60 s on a heavily loaded machine
+	opts := sut.Options{DataDir: sb.DataDir, Cwd: sb.Cwd, Features: []string{"stores"}, Timeout: 4 * time.Minute}
 	return pt.WithWorker(opts, func(c *sut.Client) error {
 		x := &execCtx{c: c, sb: sb, o: o}
 		base, err := sb.snap()
@@ -600,7 +602,6 @@ func checkC19(cs *c19Case, o *pt.Obs) error {
 		// deferred effects (segment and tags-tree files are written at flush / rotation)
 		steps = append(steps, step{Op: "flush", Enc: "-"}, step{Op: "mflush", Enc: "-"}, step{Op: "rotate", Enc: "-"},
 			step{Op: "shutdown", Enc: "-"})
-		nontrivial := false
 		for i, st := range steps {
 			name := st.Name.value(sb.Root)
 			name = strings.ReplaceAll(strings.ReplaceAll(name, "{DASHID}", x.dashID), "{FOLDERID}", x.folderID)
@@ -628,13 +629,15 @@ func checkC19(cs *c19Case, o *pt.Obs) error {
 				died = true
 				o.Class("worker_died:" + st.Op)
 				x.hist = append(x.hist, "    (the server process died during this step: "+short(pt.CrashDetail(c), 600)+")")
+				// not a C19 verdict; left in the log for whoever looks after the robustness properties
+				fmt.Fprintf(os.Stderr, "C19 NOTE worker died (no verdict):\n%s\n%s\n", strings.Join(x.hist, "\n"), short(pt.CrashDetail(c), 4000))
 			} else if err != nil {
 				return err
 			}
 			if reached && spec.Carrier != "none" && hostile(name) {
 				o.Class("reach:" + st.Op)
 				o.Class("reachname:" + st.Name.Class)
-				nontrivial = true
+				o.NonTrivial() // at once: a case that ends in a violation counts as well
 			}
 			// (1) read escape: sentinel content in a response
 			for _, b := range bodies {
@@ -664,9 +667,6 @@ func checkC19(cs *c19Case, o *pt.Obs) error {
 			if died {
 				break
 			}
-		}
-		if nontrivial {
-			o.NonTrivial()
 		}
 		o.Count("steps", int64(len(cs.Steps)))
 		return nil
